@@ -7,28 +7,34 @@ open Proto Fixed
 
 def bstr (b : Bool) : Str := if b then ['1'] else ['0']
 
-/-- driver commands of C14:
-    `c14.conv <lim> line*`            -> `ok` converted-line*
-    `c14.analyse <lim> line`          -> `ok` conv regular cont long excess
-    `c14.read <doc> <pre> <alt> <preAlt> <lim> line*`
+/-- the `<var>` field: three characters `0`/`1` = `blankShort`, `col7Comment`, `spacedExcess`
+    (anything else = the code as it is) -/
+def parseVariant : Str → Variant
+  | [a, b, c] => { blankShort := a == '1', col7Comment := b == '1', spacedExcess := c == '1' }
+  | _ => {}
+
+/-- driver commands of C14 (`<var>` = variant of the code under test, decided by the harness):
+    `c14.conv <var> <lim> line*`      -> `ok` converted-line*
+    `c14.analyse <var> <lim> line`    -> `ok` conv regular cont long excess
+    `c14.read <var> <doc> <pre> <alt> <preAlt> <lim> line*`
                                       -> `ok` item* | `err` kind   (reader after converter) -/
 def dispatchC14 : List Str → Option (List Str)
   | cmd :: args =>
     if cmd == "c14.conv".toList then
       match args with
-      | lim :: lines => some ("ok".toList :: convertToFree (lim == ['1']) lines)
+      | v :: lim :: lines => some ("ok".toList :: convertToFree (parseVariant v) (lim == ['1']) lines)
       | _ => some ["bad-request".toList]
     else if cmd == "c14.analyse".toList then
       match args with
-      | [lim, line] =>
-        let f := analyse (lim == ['1']) line
+      | [v, lim, line] =>
+        let f := analyse (parseVariant v) (lim == ['1']) line
         some ["ok".toList, f.conv, bstr f.regular, bstr f.cont, bstr f.long, f.excess]
       | _ => some ["bad-request".toList]
     else if cmd == "c14.read".toList then
       match args with
-      | d :: p :: a :: pa :: lim :: lines =>
+      | v :: d :: p :: a :: pa :: lim :: lines =>
         match readAll { doc := d, pre := p, alt := a, preAlt := pa }
-                ((convertToFree (lim == ['1']) lines).map dropNL) with
+                ((convertToFree (parseVariant v) (lim == ['1']) lines).map dropNL) with
         | .ok items => some ("ok".toList :: items)
         | .error e => some ["err".toList, rerrName e]
       | _ => some ["bad-request".toList]
